@@ -101,7 +101,7 @@ func runC14(r *Report) {
 			var nilEdges []Edge
 			for _, b := range liveBlocks(fn) {
 				if v, nilS, nn, ok := nilTest(b); ok {
-					if po := paramOrigin(v); po != nil && po.Name() == pname {
+					if po := paramOrigin(v); po != nil && refName(po) == pname {
 						nonNil = append(nonNil, Edge{b, nn})
 						nilEdges = append(nilEdges, Edge{b, nilS})
 					}
@@ -281,7 +281,7 @@ func runC14(r *Report) {
 		wr := CallsIn(fn, Suffix("SSTableStreamWriter.WriteNext", "SSTableStreamWriterI.WriteNext"))
 		inclT, inclF := condEdges(fn, func(c ssa.Value) bool {
 			pr, ok := c.(*ssa.Parameter)
-			return ok && pr.Name() == "includeTombstones"
+			return ok && refName(pr) == "includeTombstones"
 		})
 		var nonNil []Edge
 		for _, b := range liveBlocks(fn) {
